@@ -16,11 +16,17 @@ Spec == Init /\ [][Next]_rs
 RangeSetCorrect == /\ NormalForm(Normalise(rs))
                    /\ \A x \in 0..Top : RsContains(Normalise(rs), x) = Member(x, rs)
 
-Sch == [fields |-> <<[name |-> "i", ty |-> TInt, opt |-> TRUE], [name |-> "ip", ty |-> TIp, opt |-> TRUE]>>,
+Sch == [fields |-> <<[name |-> "i", ty |-> TInt, opt |-> TRUE], [name |-> "ip", ty |-> TIp, opt |-> TRUE],
+                     [name |-> "s", ty |-> TBytes, opt |-> TRUE]>>,
         funcs |-> <<>>, lists |-> <<>>, nne |-> TRUE]
-Ctxs == Strict([x \in 1..(Top + 1) |-> [sch |-> 1, vals |-> <<VInt(IntOfNat(x - 1)), VIp(<<10, 0, 0, x - 1>>)>>, lists |-> <<>>]])
-        \o <<[sch |-> 1, vals |-> <<Nil, Nil>>, lists |-> <<>>],
-             [sch |-> 1, vals |-> <<VInt(<<-1, 65535, 65535, 65535>>), VIp(<<0, 0, 0, 0, 0, 0, 0, 0, 0, 0, 255, 255, 10, 0, 0, 1>>)>>, lists |-> <<>>]>>
+(* byte strings with shared prefixes and the empty string; index = point of the domain + 1 *)
+BPool == <<<<>>, <<97>>, <<97, 98>>, <<98>>, <<98, 97>>, <<98, 98>>, <<99>>, <<99, 99>>, <<100>>>>
+BTxt == <<"\"\"", "\"a\"", "\"ab\"", "\"b\"", "\"ba\"", "\"bb\"", "\"c\"", "\"cc\"", "\"d\"">>
+Mapped(x) == <<0, 0, 0, 0, 0, 0, 0, 0, 0, 0, 255, 255, 10, 0, 0, x>>
+Ctxs == Strict([x \in 1..(Top + 1) |-> [sch |-> 1, vals |-> <<VInt(IntOfNat(x - 1)), VIp(<<10, 0, 0, x - 1>>), VBytes(BPool[x])>>, lists |-> <<>>]])
+        \o <<[sch |-> 1, vals |-> <<Nil, Nil, Nil>>, lists |-> <<>>],
+             [sch |-> 1, vals |-> <<VInt(<<-1, 65535, 65535, 65535>>), VIp(Mapped(1)), VBytes(<<97, 0>>)>>, lists |-> <<>>],
+             [sch |-> 1, vals |-> <<VInt(IntOfNat(Top)), VIp(Mapped(Top)), VBytes(<<>>)>>, lists |-> <<>>]>>
 IntItem(r) == IF r.lo = r.hi THEN [k |-> "int", v |-> IntOfNat(r.lo), txt |-> ToString(r.lo)]
               ELSE [k |-> "irange", lo |-> IntOfNat(r.lo), hi |-> IntOfNat(r.hi), txt |-> ToString(r.lo) \o ".." \o ToString(r.hi)]
 IpTxt(x) == "10.0.0." \o ToString(x)
@@ -29,6 +35,15 @@ IpItem(r) == IF r.lo = r.hi THEN [k |-> "ip", v |-> <<10, 0, 0, r.lo>>, txt |-> 
              ELSE IF r.hi = r.lo + 1 /\ r.lo % 2 = 0 THEN [k |-> "cidr", v |-> <<10, 0, 0, r.lo>>, len |-> 31, txt |-> IpTxt(r.lo) \o "/31"]
              ELSE IF r.hi = r.lo + 3 /\ r.lo % 4 = 0 THEN [k |-> "cidr", v |-> <<10, 0, 0, r.lo>>, len |-> 30, txt |-> IpTxt(r.lo) \o "/30"]
              ELSE [k |-> "iprange", lo |-> <<10, 0, 0, r.lo>>, hi |-> <<10, 0, 0, r.hi>>, txt |-> IpTxt(r.lo) \o ".." \o IpTxt(r.hi)]
+(* the same items as IPv4-mapped IPv6 addresses: they contain IPv6 probes only *)
+MTxt(x) == "::ffff:10.0.0." \o ToString(x)
+IpItem6(r) == IF r.lo = r.hi THEN [k |-> "ip", v |-> Mapped(r.lo), txt |-> MTxt(r.lo)]
+              ELSE [k |-> "iprange", lo |-> Mapped(r.lo), hi |-> Mapped(r.hi), txt |-> MTxt(r.lo) \o ".." \o MTxt(r.hi)]
+(* byte strings: the two end points of the range name two strings of the pool *)
+BItem(x) == [k |-> "bytes", v |-> BPool[x + 1], form |-> "q", txt |-> BTxt[x + 1]]
+BToks == <<[k |-> "id", name |-> "s"], [k |-> "in"], [k |-> "lbr"]>>
+         \o FlatSeq(Strict([i \in 1..Len(rs) |-> IF rs[i].lo = rs[i].hi THEN <<BItem(rs[i].lo)>> ELSE <<BItem(rs[i].lo), BItem(rs[i].hi)>>]))
+         \o <<[k |-> "rbr"]>>
 Toks(field, Item(_)) == <<[k |-> "id", name |-> field], [k |-> "in"], [k |-> "lbr"]>>
                         \o Strict([i \in 1..Len(rs) |-> Item(rs[i])]) \o <<[k |-> "rbr"]>>
 Vector(ts) ==
@@ -39,6 +54,8 @@ Vector(ts) ==
 EvalIsMember == \A x \in 0..Top : EvalFilter(ParseFilter(Toks("i", IntItem), Sch, 128).node, Ctxs[x + 1], Sch) = Member(x, rs)
 Emit == /\ PrintT(<<"REPLAY", ToJson(Vector(Toks("i", IntItem)))>>)
         /\ PrintT(<<"REPLAY", ToJson(Vector(Toks("ip", IpItem)))>>)
+        /\ PrintT(<<"REPLAY", ToJson(Vector(Toks("ip", IpItem6)))>>)
+        /\ PrintT(<<"REPLAY", ToJson(Vector(BToks))>>)
 ASSUME /\ PrintT(<<"REPLAY", ToJson([hdr |-> "scheme", sch |-> Sch])>>)
        /\ \A n \in 1..Len(Ctxs) : PrintT(<<"REPLAY", ToJson([hdr |-> "ctx", ctx |-> Ctxs[n]])>>)
 =============================================================================
